@@ -90,6 +90,12 @@ func eq(a, b reflect.Value, path string, o EqOpts, depth int) string {
 		}
 		return ""
 	}
+	if t == tMagic {
+		return "" // a Magic field carries no information beyond the tag written in the struct definition
+	}
+	if gn := genericName(t); gn == "Hashmap" || gn == "HashmapAug" {
+		return eqHashmap(a, b, path, o, depth)
+	}
 	switch t.Kind() {
 	case reflect.Bool:
 		if a.Bool() != b.Bool() {
@@ -163,6 +169,17 @@ func eq(a, b reflect.Value, path string, o EqOpts, depth int) string {
 			return eq(ca, cb, path, o, depth+1)
 		}
 	case reflect.Struct:
+		if t.NumField() > 0 && t.Field(0).Type == tSumType && t.Field(0).Name == "SumType" {
+			// tagged union: same constructor, equal content of that constructor; the other arms are
+			// filler (zero values) and carry no meaning
+			if a.Field(0).String() != b.Field(0).String() {
+				return fmt.Sprintf("%s.SumType: %q vs %q", path, a.Field(0).String(), b.Field(0).String())
+			}
+			if f, ok := t.FieldByName(a.Field(0).String()); ok && a.Field(0).String() != "SumType" {
+				return eq(a.FieldByIndex(f.Index), b.FieldByIndex(f.Index), path+"."+f.Name, o, depth+1)
+			}
+			return ""
+		}
 		for i := 0; i < t.NumField(); i++ {
 			f := t.Field(i)
 			if f.Type.Kind() == reflect.Func {
@@ -189,4 +206,79 @@ func trunc(s string) string {
 		return s[:40] + "..."
 	}
 	return s
+}
+
+// eqHashmap compares two Hashmap values as mappings (the listing order of a
+// built dictionary and of a decoded one may differ for signed keys).
+func eqHashmap(a, b reflect.Value, path string, o EqOpts, depth int) string {
+	ka, kb := open(a.FieldByName("keys")), open(b.FieldByName("keys"))
+	va, vb := open(a.FieldByName("values")), open(b.FieldByName("values"))
+	if !ka.IsValid() || !va.IsValid() {
+		return ""
+	}
+	if ka.Len() != kb.Len() || va.Len() != vb.Len() || ka.Len() != va.Len() {
+		return fmt.Sprintf("%s: %d keys/%d values vs %d keys/%d values", path, ka.Len(), va.Len(), kb.Len(), vb.Len())
+	}
+	idx := map[string]int{}
+	for i := 0; i < kb.Len(); i++ {
+		idx[fmt.Sprintf("%v", open(kb.Index(i)).Interface())] = i
+	}
+	for i := 0; i < ka.Len(); i++ {
+		k := fmt.Sprintf("%v", open(ka.Index(i)).Interface())
+		j, ok := idx[k]
+		if !ok {
+			return fmt.Sprintf("%s: key %s missing after decode", path, trunc(k))
+		}
+		if d := eq(va.Index(i), vb.Index(j), fmt.Sprintf("%s[%s]", path, trunc(k)), o, depth+1); d != "" {
+			return d
+		}
+	}
+	// extras of HashmapAug are compared as-is when present
+	if ea, eb := a.FieldByName("extra"), b.FieldByName("extra"); ea.IsValid() && eb.IsValid() {
+		return eq(ea, eb, path+".extra", o, depth+1)
+	}
+	return ""
+}
+
+// JSONCapable reports whether values of type t can survive encoding/json in
+// both directions as far as the type structure tells: every struct that hides
+// state in unexported fields must bring its own pair of JSON methods.
+func JSONCapable(t reflect.Type) bool { return jsonCapable(t, map[reflect.Type]bool{}) }
+
+var (
+	tJSONMarshaler   = reflect.TypeOf((*interface{ MarshalJSON() ([]byte, error) })(nil)).Elem()
+	tJSONUnmarshaler = reflect.TypeOf((*interface{ UnmarshalJSON([]byte) error })(nil)).Elem()
+)
+
+func jsonCapable(t reflect.Type, seen map[reflect.Type]bool) bool {
+	if seen[t] {
+		return true
+	}
+	seen[t] = true
+	pt := reflect.PointerTo(t)
+	m := t.Implements(tJSONMarshaler) || pt.Implements(tJSONMarshaler)
+	u := pt.Implements(tJSONUnmarshaler)
+	if m && u {
+		return true
+	}
+	if m != u {
+		return false
+	}
+	switch t.Kind() {
+	case reflect.Struct:
+		for i := 0; i < t.NumField(); i++ {
+			f := t.Field(i)
+			if !f.IsExported() {
+				return false
+			}
+			if !jsonCapable(f.Type, seen) {
+				return false
+			}
+		}
+	case reflect.Pointer, reflect.Slice, reflect.Array:
+		return jsonCapable(t.Elem(), seen)
+	case reflect.Interface, reflect.Map, reflect.Func, reflect.Chan:
+		return false
+	}
+	return true
 }
